@@ -48,7 +48,15 @@ pub enum Ctl {
 #[derive(Clone, Debug, Serialize, Deserialize)]
 pub struct Scenario {
     pub tick_us: u64,
+    /// sub-microsecond part of the tick (only generated in the fractional class)
+    #[serde(default)]
+    pub tick_sub_ns: u32,
+    /// configured epoch = UNIX_EPOCH + epoch_ms milliseconds + epoch_sub_ns nanoseconds
     pub epoch_ms: u64,
+    /// sub-millisecond part of the configured epoch (any value is valid; the
+    /// generator uses 0..=999_999)
+    #[serde(default)]
+    pub epoch_sub_ns: u32,
     pub seed: u64,
     pub random_order: bool,
     pub steps: u32,
@@ -178,9 +186,11 @@ async fn software(sh: Shared, host: usize, tasks: Vec<Task>) -> turmoil::Result 
 
 pub fn run(sc: &Scenario) -> Outcome {
     let mut out = Outcome::ok();
-    let tick = Duration::from_micros(sc.tick_us);
-    let whole_ms = sc.tick_us % 1000 == 0;
-    let epoch_d = Duration::from_millis(sc.epoch_ms);
+    let tick = Duration::from_micros(sc.tick_us) + Duration::from_nanos(sc.tick_sub_ns as u64);
+    let whole_ms = tick.subsec_nanos() % 1_000_000 == 0;
+    // the CONFIGURED epoch: every epoch clause below compares against this
+    // value, never against a since_epoch() sampled from the code under test
+    let epoch_d = Duration::from_millis(sc.epoch_ms) + Duration::from_nanos(sc.epoch_sub_ns as u64);
     let epoch = SystemTime::UNIX_EPOCH + epoch_d;
     let sh = Shared {
         step: Rc::new(Cell::new(0)),
@@ -196,6 +206,22 @@ pub fn run(sc: &Scenario) -> Outcome {
         b.enable_random_order();
     }
     let mut sim = b.build();
+
+    // --- before the first step: no time has passed, epoch time is the configured epoch
+    if sim.elapsed() != Duration::ZERO {
+        out.fail(
+            "sim-elapsed-nonzero-before-first-step",
+            format!("fresh Sim::elapsed={:?}", sim.elapsed()),
+        );
+        return out;
+    }
+    if sim.since_epoch() != epoch_d {
+        out.fail(
+            "sim-since-epoch:before-first-step",
+            format!("fresh Sim::since_epoch={:?}, configured epoch - UNIX_EPOCH={epoch_d:?}", sim.since_epoch()),
+        );
+        return out;
+    }
 
     let n = sc.hosts.len();
     let mut registered = vec![false; n];
@@ -213,7 +239,7 @@ pub fn run(sc: &Scenario) -> Outcome {
             };
             if ds
                 .iter()
-                .any(|d| *d > 0 && (*d as u64 * 1000) % sc.tick_us.max(1) != 0)
+                .any(|d| *d > 0 && (*d as u128 * 1_000_000) % tick.as_nanos().max(1) != 0)
             {
                 non_dividing = true;
             }
@@ -344,7 +370,17 @@ pub fn run(sc: &Scenario) -> Outcome {
                 // host timer; the window and timer-exactness clauses are
                 // excluded for this class and counted.
                 excluded_fractional += 1;
-                // a weaker clause that must still hold: timers never fire early
+                // weaker clauses that must still hold: the lower edge of the
+                // step window (HostTimer's accumulated ticks do not depend on
+                // tokio's rounding) ...
+                if o.sim_elapsed < lo {
+                    out.fail(
+                        "observation-before-step-window:fractional-tick",
+                        format!("{o:?}: step {} starts at {lo:?}", o.step),
+                    );
+                    return out;
+                }
+                // ... and timers never fire early
                 if let Some((exp, _ds, di, what)) = o.timer {
                     if di < exp {
                         out.fail(
@@ -361,6 +397,12 @@ pub fn run(sc: &Scenario) -> Outcome {
 
     if !whole_ms {
         out.label("fractional-tick");
+        if tick.subsec_nanos() % 1000 != 0 {
+            out.label("fractional-tick:sub-us-part");
+        }
+        if tick < Duration::from_micros(100) {
+            out.label("fractional-tick:below-100us");
+        }
         out.exclude("F-C05-1");
         out.count("observations excluded from window/timer clauses (fractional tick)", excluded_fractional);
     } else {
@@ -380,6 +422,21 @@ pub fn run(sc: &Scenario) -> Outcome {
     }
     if sc.random_order {
         out.label("random-order");
+    }
+    out.label(if epoch_d.is_zero() {
+        "epoch:unix-epoch"
+    } else if epoch_d.subsec_nanos() % 1_000_000 != 0 {
+        "epoch:sub-ms-part"
+    } else if epoch_d.subsec_nanos() != 0 {
+        "epoch:whole-ms"
+    } else {
+        "epoch:whole-s"
+    });
+    if epoch_d.subsec_nanos() % 1_000 != 0 {
+        out.label("epoch:sub-us-part");
+    }
+    if epoch_d.as_secs() > u32::MAX as u64 {
+        out.label("epoch:beyond-u32-seconds");
     }
     out.count("timer observations checked exactly", timer_obs);
     out.count("observations", checked_from as u64);
@@ -467,18 +524,66 @@ fn host_strategy(max_steps: u32) -> BoxedStrategy<HostSpec> {
         .boxed()
 }
 
+/// Last whole second of year 9999 (the "far future" end of the epoch range).
+const EPOCH_MAX_S: u64 = 253_402_300_799;
+
+/// (epoch_ms, epoch_sub_ns): `Builder::epoch` takes any `SystemTime`; the only
+/// restriction in the unchanged tree is epoch >= UNIX_EPOCH (`Sim::new`
+/// panics otherwise), so nothing before UNIX_EPOCH is generated.
+fn epoch_strategy() -> BoxedStrategy<(u64, u32)> {
+    let boundary_s = proptest::sample::select(vec![
+        0u64,
+        1,
+        i32::MAX as u64,
+        i32::MAX as u64 + 1,
+        u32::MAX as u64,
+        u32::MAX as u64 + 1,
+        EPOCH_MAX_S,
+    ]);
+    let ms = prop_oneof![
+        // whole seconds: boundaries, "today", far future
+        2 => boundary_s.prop_map(|s| s * 1000),
+        2 => (0u64..4_000_000_000).prop_map(|s| s * 1000),
+        1 => (0u64..=EPOCH_MAX_S).prop_map(|s| s * 1000),
+        // whole milliseconds
+        1 => 0u64..1000,
+        4 => 0u64..4_000_000_000_000,
+        1 => 0u64..=EPOCH_MAX_S * 1000 + 999,
+    ];
+    let sub = prop_oneof![
+        4 => Just(0u32),
+        2 => proptest::sample::select(vec![1u32, 999, 1000, 1001, 499_999, 500_000, 999_000, 999_999]),
+        // whole microseconds
+        1 => (1u32..1000).prop_map(|us| us * 1000),
+        // arbitrary nanosecond precision
+        5 => 1u32..1_000_000,
+    ];
+    prop_oneof![
+        1 => Just((0u64, 0u32)),
+        1 => Just((0u64, 1u32)),
+        22 => (ms, sub),
+    ]
+    .boxed()
+}
+
 pub fn strategy(fractional: bool) -> BoxedStrategy<Scenario> {
     let tick = if fractional {
-        prop_oneof![Just(500u64), Just(1500), Just(250), Just(2750), Just(100), Just(999), Just(1001)].boxed()
+        prop_oneof![
+            7 => proptest::sample::select(vec![500u64, 1500, 250, 2750, 100, 999, 1001]).prop_map(|us| (us, 0u32)),
+            // nanosecond-precision ticks: 1 ns, 1 us, just below / above 1 ms and 2 ms
+            3 => proptest::sample::select(vec![(0u64, 1u32), (1, 0), (999, 999), (1000, 1), (1999, 999), (2000, 1), (1234, 567)]),
+        ]
+        .boxed()
     } else {
         prop_oneof![
             9 => proptest::sample::select(vec![1000u64, 2000, 3000, 5000, 7000, 10_000, 33_000, 100_000, 1_000_000]),
             2 => (1u64..=50).prop_map(|m| m * 1000),
         ]
+        .prop_map(|us| (us, 0u32))
         .boxed()
     };
-    (tick, 0u64..4_000_000_000_000, any::<u64>(), any::<bool>(), 4u32..60)
-        .prop_flat_map(|(tick_us, epoch_ms, seed, random_order, steps)| {
+    (tick, epoch_strategy(), any::<u64>(), any::<bool>(), 4u32..60)
+        .prop_flat_map(|((tick_us, tick_sub_ns), (epoch_ms, epoch_sub_ns), seed, random_order, steps)| {
             (
                 proptest::collection::vec(host_strategy(steps), 1..5),
                 proptest::collection::vec(
@@ -497,7 +602,9 @@ pub fn strategy(fractional: bool) -> BoxedStrategy<Scenario> {
                     ctl.sort_by_key(|c| c.0);
                     Scenario {
                         tick_us,
+                        tick_sub_ns,
                         epoch_ms,
+                        epoch_sub_ns,
                         seed,
                         random_order,
                         steps,
@@ -515,10 +622,11 @@ fn check(tier: Tier, seed: u64) -> i32 {
     ctx.random("whole-ms", tier.pick(12_000, 150_000), &|| strategy(false), &run);
     ctx.random("fractional", tier.pick(2_000, 20_000), &|| strategy(true), &run);
     ctx.finish(
-        "random scenarios (tick, epoch, 1-4 hosts/clients with sleep/interval/timeout/sleep_until tasks, late registration, crash/bounce controller); every step checks Sim::elapsed == tick*steps and every in-host observation checks offset/epoch identities, monotonicity, the step window and exact timer firing. Non-trivial = >=4 observations and (a timer length not divisible by the tick, or a late registration, or a crash/bounce). Distinct by scenario hash.",
+        "random scenarios (tick, epoch, 1-4 hosts/clients with sleep/interval/timeout/sleep_until tasks, late registration, crash/bounce controller); the epoch is a generated dimension: UNIX_EPOCH, UNIX_EPOCH+1ns, whole seconds (incl. 2^31 / 2^32 boundaries and year 9999), whole ms, whole us and arbitrary ns precision, never before UNIX_EPOCH (Sim::new panics there); a fresh Sim must report elapsed 0 and since_epoch == configured epoch, every step checks Sim::elapsed == tick*steps and Sim::since_epoch == configured epoch + tick*steps, and every in-host observation checks offset/epoch identities against the CONFIGURED epoch, monotonicity, the step window and exact timer firing. Non-trivial = >=4 observations and (a timer length not divisible by the tick, or a late registration, or a crash/bounce). Distinct by scenario hash.",
         &[
             "host programs use only tokio::time and turmoil clock getters",
-            "fractional (non whole-millisecond) ticks are generated as a separate class; window and timer-exactness clauses are excluded there (known finding F-C05-1) and counted",
+            "fractional (non whole-millisecond) ticks, including ns-precision ticks from 1 ns, are generated as a separate class; the upper window edge and timer-exactness clauses are excluded there (known finding F-C05-1) and counted; the lower window edge, never-early timers and all epoch/offset identities are still checked",
+            "epochs before UNIX_EPOCH are not generated (Sim::new expects epoch >= UNIX_EPOCH)",
         ],
     )
 }
